@@ -10,6 +10,10 @@ OBLIGATIONS = [
     "KafVerif.C06.next_beyond_acked",
     "KafVerif.C06.append_fresh",
     "KafVerif.C06.old_violates",
+    "KafVerif.C06.one_log_per_partition",
+    "KafVerif.C06.no_recheck_two_logs",
+    "KafVerif.C06.no_recheck_two_logs_late_do",
+    "KafVerif.C06.recheck_same_schedule",
 ]
 TECHNIQUE = ("Lean 4 proof (inductive invariant incl. crash in every state and the RestoreFromS3 scan with the orphan rule) over a hand-written model + crash-point x schedule x fault enumeration on the real broker code (new handler re-opened through getPartitionLog on the surviving S3 objects and store), diffed against the model + direct monitor")
 LEVEL_TEXT = ("Lean 4 theorems: from EVERY reachable state, crash then re-open: the re-open succeeds, every batch acknowledged before the crash lies in a registered segment covering its base offset whose S3 object (with index) contains it, the next offset to assign is beyond every acknowledged offset and not below the published watermark (restart, restore_succeeds); in every reachable state AppendBatch hands out a base beyond all acknowledged/published offsets (append_fresh). Leftover objects (orphan segment, orphan index, complete uncommitted pair) are part of the reachable states. The pre-fix code is refuted (old_violates). Tied to the source by crash-point enumeration on the real code.")
@@ -18,6 +22,7 @@ BUILDS = K.BUILDS
 ASSUMPTIONS = K.ASSUMPTIONS + [
     "crash points are the gates (before/after each of the two uploads, before the UpdateOffsets callback, between AppendBatch and Flush) plus every quiescent state; the model's theorem allows a crash in EVERY state of the finer-grained system",
     "restart = a new handler on the same S3 contents and metadata store; the partition log is re-opened through the real getPartitionLog (NextOffset, RestoreFromS3, offset sync)",
+    "registry scenario: k concurrent first produce requests on a freshly started broker open the partition themselves (real handleProduce -> getPartitionLog -> singleflight), parked at store.NextOffset / store.CreateTopic; the window between the fast-path miss and logInit.Do has no seam, so that interleaving is reached deterministically through the auto-create retry loop and additionally by an ungated stress round (8 goroutines x 150 fresh brokers, probabilistic)",
 ]
 TRUSTED = K.TRUSTED
 WHICH = {"C06"}
@@ -40,11 +45,167 @@ def plans(quick):
     return enum, rnd
 
 
+# ----------------------------------------------------------------------------- partition-log registry
+REG_OPS = ("rnew", "rprod", "nxt", "mk")
+
+
+def reg_canon(line):
+    """registry view of an implementation line: where each request is w.r.t. getPartitionLog"""
+    d = K.parse(line)
+    m = {"nxt": "nxt", "mk": "mk", "wait": "wait", "failed": "failed", "idle": "idle"}
+    pcs = K.pcs_of(d)
+    ps = ",".join("%d:%s" % (t, m.get(pc, "got")) for t, pc in sorted(pcs.items())) or "-"
+    return "%s pcs=%s logs=%s topic=%s" % (d["res"], ps, d.get("logs", "?"), d.get("topic", "?"))
+
+
+def reg_choices(line, k, started, faults_left):
+    cs = []
+    for t, pc in sorted(K.pcs_of(K.parse(line)).items()):
+        if pc in ("nxt", "mk"):
+            cs.append("%s %d ok" % (pc, t))
+            if faults_left > 0:
+                cs.append("%s %d fail" % (pc, t))
+    if started < k:
+        cs.append("rprod %d" % started)
+    return cs
+
+
+def reg_play(im, mode, k, faults, pick):
+    ops = ["rnew %s code" % mode]
+    lines = [im.do(ops[0])]
+    started = used = depth = 0
+    while len(ops) < 40:
+        cs = reg_choices(lines[-1], k, started, faults - used)
+        if not cs:
+            break
+        cmd = pick(depth, cs)
+        if cmd is None:
+            break
+        depth += 1
+        started += cmd.startswith("rprod")
+        used += cmd.endswith("fail")
+        ops.append(cmd)
+        lines.append(im.do(cmd))
+    # let the flushes that were parked meanwhile complete, lowest thread first, then restart
+    for _ in range(60):
+        cs = K.enabled(K.parse(lines[-1]), set(range(k)), 0, 0)
+        if not cs:
+            break
+        ops.append(cs[0])
+        lines.append(im.do(cs[0]))
+    for cmd in ("crash", "restore", "readcheck"):
+        ops.append(cmd)
+        lines.append(im.do(cmd))
+    return ops, lines
+
+
+def reg_enumerate(im, mode, k, faults, limit):
+    stack, out, exhausted = [[]], [], True
+    while stack:
+        if len(out) >= limit:
+            exhausted = False
+            break
+        prefix = stack.pop()
+        branch = []
+
+        def pick(depth, cs):
+            if depth < len(prefix):
+                return cs[prefix[depth]] if prefix[depth] < len(cs) else None
+            branch.append(len(cs))
+            return cs[0]
+        out.append(reg_play(im, mode, k, faults, pick))
+        for j, ncs in enumerate(branch):
+            for alt in range(ncs - 1, 0, -1):
+                stack.append(prefix + [0] * j + [alt])
+    return out, exhausted
+
+
+def reg_monitor(ops, lines, which=None):
+    for i, (op, ln) in enumerate(zip(ops, lines)):
+        d = K.parse(ln)
+        if d.get("logs", "0").isdigit() and int(d.get("logs", "0")) > 1:
+            return i, "two-logs-for-one-partition", "%s PartitionLog instances were registered for one partition in one broker incarnation" % d["logs"]
+    return K.monitor(ops, lines, which or WHICH)
+
+
+def run_registry(ck, binary, which=None, light=False):
+    quick = ck.quick()
+    plans = [("auto", 2, 1, 2000), ("exists", 2, 1, 2000), ("auto", 3, 0, 400 if quick else 6000)]
+    if light:
+        plans = [("auto", 2, 0, 500), ("exists", 2, 0, 500)]
+    elif not quick:
+        plans += [("exists", 3, 1, 3000), ("auto", 3, 1, 6000)]
+    im = K.Impl(ck, binary)
+    try:
+        scheds = []
+        import glob
+        import json
+        import os
+        for fn in sorted(glob.glob(os.path.join(lib.REPLAYS, "C06-registry-*.json"))):
+            ops = json.load(open(fn))["ops"]
+            scheds.append((ops, [im.do(o) for o in ops]))
+        for mode, k, faults, limit in plans:
+            got, exhausted = reg_enumerate(im, mode, k, faults, limit)
+            ck.log("registry: %d first requests, topic %s, <=%d store failures: %d schedules%s" % (
+                k, mode, faults, len(got), "" if exhausted else " (limit reached)"))
+            ck.count("registry_enumerated:%s/k%d/f%d" % (mode, k, faults), len(got))
+            scheds += got
+        for i in range(0 if light else (40 if quick else 800)):
+            rng = ck.rng.fork()
+            scheds.append(reg_play(im, rng.choice(["auto", "exists"]), rng.range(2, 4), rng.below(3),
+                                   lambda depth, cs: rng.choice(cs)))
+        for ops, lines in scheds:
+            ck.count("registry_schedules")
+            ck.case(("registry",) + tuple(ops), nontrivial=sum(1 for o in ops if o.startswith("rprod")) >= 2)
+            mon = reg_monitor(ops, lines, which)
+            if mon is not None:
+                i, fp, msg = mon
+                ck.violation(fp, msg, {"ops": ops[:i + 1] if ops[i] != "readcheck" else ops, "expected": "one PartitionLog per partition and incarnation; acknowledged offsets unique and readable after restart",
+                                       "actual": msg, "schedule_family": "registry"})
+                return False
+        # ungated stress: the window between the fast-path miss and logInit.Do
+        rounds = 40 if light else (150 if quick else 1500)
+        out = [im.do("new 0 0 fixed"), im.do("rrace 8 %d" % rounds)]
+        races = K.parse(out[1]).get("races", "?")
+        ck.count("registry_race_rounds", rounds)
+        if races != "0":
+            ck.violation("two-logs-for-one-partition", "8 concurrent getPartitionLog calls on a freshly started broker returned different PartitionLogs in %s of %d rounds" % (races, rounds),
+                         {"ops": ["new 0 0 fixed", "rrace 8 %d" % rounds], "actual": out[1], "probabilistic": True})
+            return False
+        # correspondence with the registry model (lines of the registry commands only)
+        m_ops, m_impl = [], []
+        for ops, lines in scheds:
+            for o, l in zip(ops, lines):
+                if o.split()[0] in REG_OPS:
+                    m_ops.append(o)
+                    m_impl.append(reg_canon(l))
+        fn = ck.path("reg_ops.txt")
+        open(fn, "w").write("\n".join(m_ops) + "\n")
+        model = ck.lean_run("C06", fn)
+        ck.cov["traces_validated_against_impl"] += len(scheds)
+        dd = lib.first_diff(m_impl, model)
+        if dd is not None:
+            ck.cov["disagreements_checked"] += 1
+            lo = max(j for j in range(dd + 1) if m_ops[j].startswith("rnew"))
+            ck.broke("correspondence model/implementation (StorageLogRegistry: getPartitionLog)",
+                     "schedule: %s\nat op %r\nimpl : %s\nmodel: %s" % (" ; ".join(m_ops[lo:dd + 1]), m_ops[dd], m_impl[dd],
+                                                                        model[dd] if dd < len(model) else None))
+            return False
+        return True
+    finally:
+        im.close()
+
+
 def run(ck):
     bins = ck.build_all()
     if bins is None:
         return
     binary = bins["h"]
+    if not run_registry(ck, binary):
+        if ck.broken and not ck.violations:
+            ck.log("registry correspondence broke; continuing with the crash schedules to search for a failing input")
+        else:
+            return
     ck.cov["rule"] = ("schedules with crash + restart (new handler, real getPartitionLog/RestoreFromS3 on the surviving S3 objects and store) generated against the real broker from VERIF_SEED; "
                       "non-trivial = >=2 producers and (a fault or a Flush waiter or a crash); distinct = distinct command lists")
     enum, rnd = plans(ck.quick())
@@ -76,4 +237,4 @@ def run(ck):
 
 
 def replay(ck, path):
-    K.replay(ck, path, WHICH)
+    K.replay(ck, path, WHICH, mon_fn=reg_monitor)
